@@ -27,6 +27,9 @@ type c01Case struct {
 	// SharedMaps (constructed COSE_Sign): 1 - the body and signer 0 hold the SAME protected map object (one
 	// set of parameters for both layers); 2 - all signers hold one map object
 	SharedMaps int `json:"shared_maps,omitempty"`
+	// AlgHint: every layer whose alg is to be inserted by Sign also names the signer's algorithm in its
+	// UNPROTECTED bucket (a hint for the recipient, as older profiles do)
+	AlgHint bool `json:"alg_hint,omitempty"`
 }
 
 // revChooser encodes maps in reverse entry order with minimal heads: a valid
@@ -281,6 +284,27 @@ func checkC01(c c01Case) error {
 		m.headers().RawProtected = rc.Encode(rc.Bytes(rc.Encode(spec.Prot, revChooser{})), nil)
 		stats.Class("caller-supplied-raw-protected")
 	}
+	if c.AlgHint {
+		hint := func(h *cose.Headers, inject bool, alg int64) {
+			if !inject {
+				return
+			}
+			if h.Unprotected == nil {
+				h.Unprotected = cose.UnprotectedHeader{}
+			}
+			if _, taken := h.Unprotected[int64(1)]; !taken {
+				h.Unprotected[int64(1)] = cose.Algorithm(alg)
+				stats.Class("alg-hint-in-unprotected-bucket-of-a-layer-without-alg")
+			}
+		}
+		if m.sm == nil {
+			hint(m.headers(), spec.Inject, spec.Sigs[0].Key.Alg)
+		} else {
+			for i, sg := range spec.Sigs {
+				hint(&m.sm.Signatures[i].Headers, sg.Inject, sg.Key.Alg)
+			}
+		}
+	}
 	if m.sm != nil && c.SharedMaps != 0 && !c.RawBody {
 		switch c.SharedMaps {
 		case 1:
@@ -504,6 +528,7 @@ func TestC01_Random(t *testing.T) {
 		if c.Spec.Kind == refcose.KSign {
 			c.SharedMaps = rapid.SampledFrom([]int{0, 0, 0, 1, 1, 2}).Draw(rt, "shared-maps")
 		}
+		c.AlgHint = rapid.IntRange(0, 2).Draw(rt, "alg-hint") == 0
 		if rapid.IntRange(0, 15).Draw(rt, "textual-alg") == 0 && len(c.Spec.Sigs) > 0 {
 			// alg given as the text name of the signer's algorithm (alg = int / tstr): the library may refuse
 			// to sign; if it signs, the message must verify like any other
